@@ -57,6 +57,18 @@ def loop (cond : σ → Option Bool) (body post : σ → Out σ ρ) : Nat → σ
         | o => o
       | o => o
 
+/-- a `for _, x := range xs` loop: the elements of the list as it is when the loop starts, in order; `bind` stores the
+    element in the loop variable.  Structural recursion on the list: no fuel. -/
+def forEachGo {σ ρ α : Type} (bind : σ → α → σ) (body : σ → Out σ ρ) : List α → σ → Out σ ρ
+  | [], s => .next s
+  | x :: r, s =>
+    match body (bind s x) with
+    | .next s' => forEachGo bind body r s'
+    | o => o
+
+def forEach {σ ρ α : Type} (xs : σ → List α) (bind : σ → α → σ) (body : σ → Out σ ρ) : σ → Out σ ρ :=
+  fun s => forEachGo bind body (xs s) s
+
 /-- `p[i]` -/
 @[inline] def rd (p : Bytes) (i : Nat) : BitVec 8 := (p.getD i 0).toBitVec
 /-- the value stored by `dest[i] = b` -/
